@@ -285,6 +285,18 @@ func immTemplates() []Tmpl {
 		n := &Node{Pre: []*Line{b.line("for "+x+".F = range 2 {", free(useT(UFieldAssign, t, "F"), IMM))}, Post: []*Line{b.line("}")}}
 		return []*Node{a, n}
 	}})
+	// explicitly typed variable (the spelling of the type at the use site matters for C13)
+	typed := func(name string, kind UseKind, field string, text func(x string) string) Tmpl {
+		return Tmpl{Name: name, Cat: IMM, Kind: "struct", Make: func(b *B, t *Type, env *Env) []*Node {
+			x := b.v()
+			c, u := callNew(t, env)
+			return []*Node{b.tstmt("var "+x+" *%T = "+c, useT(UVarInert, t, ""), refT(t, SubVar), u), b.stmt(text(x), useT(kind, t, field)), b.stmt("_ = " + x)}
+		}}
+	}
+	ts = append(ts, typed("typed-assign", UFieldAssign, "F", func(x string) string { return x + ".F = 1" }))
+	ts = append(ts, typed("typed-op", UFieldOpAssign, "F", func(x string) string { return x + ".F -= 1" }))
+	ts = append(ts, typed("typed-inc", UFieldIncDec, "F", func(x string) string { return x + ".F++" }))
+	ts = append(ts, typed("typed-idx", UFieldIndexAssign, "M", func(x string) string { return x + `.M["a"] = 2` }))
 	// value (non-pointer) variable
 	ts = append(ts, Tmpl{Name: "assign-value", Cat: IMM, Kind: "struct", Make: func(b *B, t *Type, env *Env) []*Node {
 		x := b.v()
